@@ -889,7 +889,10 @@ def formula_grammar(table):
     # the parse action rather than causing the parser to try the alternatives.
     mixture << (grouped_mixture | compound)
     formula = (ungrouped_mixture | grouped_mixture | compound)
-    grammar = Optional(formula, default=Formula()) + StringEnd()
+    # Note: create a new empty formula on each call rather than using a
+    # default value, which would be shared by every blank formula parsed.
+    nothing = Empty().setParseAction(lambda s, l, t: Formula())
+    grammar = (formula | nothing) + StringEnd()
 
     grammar.setName('Chemical Formula')
     return grammar
